@@ -490,6 +490,73 @@ func (la *lockAnalysis) run(c *Ctx, rule string) {
 		seenCov[k] = true
 		c.Ok(rule+".lockset", k, w.Pos(n.Instr.Pos()), fmt.Sprintf("%s under %s (needs %s)", n.What, lkName(n.Held), lkName(n.Mode)))
 	}
+	// release on every exit, and one critical section per operation
+	for _, fn := range w.RepoFuncs() {
+		if !la.inPkg(fn) {
+			continue
+		}
+		held := la.heldStates(fn)
+		isMutexCall := func(ins ssa.Instruction, names ...string) bool {
+			call, ok := ins.(ssa.CallInstruction)
+			if !ok {
+				return false
+			}
+			callee := call.Common().StaticCallee()
+			if callee == nil || len(call.Common().Args) == 0 || !la.isMutexAddr(call.Common().Args[0]) {
+				return false
+			}
+			for _, n := range names {
+				if callee.Name() == n {
+					return true
+				}
+			}
+			return false
+		}
+		var deferredUnlocks []ssa.Instruction
+		nAcquire := 0
+		var acquireSites []ssa.Instruction
+		for _, b := range fn.Blocks {
+			for _, ins := range b.Instrs {
+				if _, isDefer := ins.(*ssa.Defer); isDefer && isMutexCall(ins, "Unlock", "RUnlock") {
+					deferredUnlocks = append(deferredUnlocks, ins)
+				}
+				if _, isCall := ins.(*ssa.Call); isCall && isMutexCall(ins, "Lock", "RLock") {
+					nAcquire++
+					acquireSites = append(acquireSites, ins)
+				}
+			}
+		}
+		if nAcquire > 0 {
+			for _, r := range liveReturns(fn) {
+				if held[r] == lkNone {
+					continue
+				}
+				released := false
+				for _, d := range deferredUnlocks {
+					if InstrDominates(d, r) {
+						released = true
+					}
+				}
+				c.Check(released, rule+".release", fnName(fn)+"|"+la.spec.Mutex+" released on return", w.Pos(r.Pos()), "a deferred unlock covers this return", "this return leaves "+la.spec.Owner.Obj().Name()+"."+la.spec.Mutex+" held ("+lkName(held[r])+", no deferred unlock on the path): every later operation blocks forever")
+			}
+		}
+		// one critical section per operation: an entry point that takes the mutex itself does not, before or after,
+		// also run a helper that takes and releases it on its own (a test made in one critical section is stale in
+		// the next one: check-then-act)
+		if fn.Parent() == nil {
+			for _, call := range callsIn(fn) {
+				if _, isDefer := call.(*ssa.Defer); isDefer || held[call] != lkNone {
+					continue
+				}
+				for _, g := range la.calleesInPkg(call) {
+					if g != fn && la.acquires(g, map[*ssa.Function]bool{}) && nAcquire > 0 {
+						c.Bad(rule+".atomic", fnName(fn)+"|one critical section: "+shortFn(g)+" locks on its own", w.Pos(call.Pos()),
+							shortFn(fn)+" takes "+la.spec.Mutex+" itself and also calls "+shortFn(g)+", which takes and releases it separately: what that call observed can change before (after) the operation's own critical section")
+					}
+				}
+			}
+		}
+	}
 	// re-acquisition / blocking while held
 	for _, fn := range w.RepoFuncs() {
 		if !la.inPkg(fn) {
